@@ -64,9 +64,12 @@ func domOf(doc *html.Node) ([]domNode, bool) {
 	return out, ok
 }
 
-var soupTags = []string{"div", "p", "b", "i", "span", "table", "tr", "td", "ul", "li", "svg", "math", "br", "img", "input", "a", "h1", "select", "option", "title", "template", "svg:rect", "mi", "foreignObject", "textarea", "pre"}
+var soupTags = []string{"div", "p", "b", "i", "span", "table", "tr", "td", "ul", "li", "svg", "math", "br", "img", "input", "a", "h1", "select", "option", "title", "template", "svg:rect", "mi", "foreignObject", "textarea", "pre",
+	// raw-text / scripting-dependent elements (their content is text or markup depending on parser options) and names with several colons
+	"noscript", "script", "style", "iframe", "noembed", "noframes", "xmp", "o:p:q", "head"}
 var soupAttrs = []string{`id="x"`, `class='a b'`, `xmlns="http://www.w3.org/1999/xhtml"`, `xmlns:xlink="http://www.w3.org/1999/xlink"`, `xlink:href="#a"`, `xml:lang="en"`,
-	`data-x`, `x:y="1"`, `XMLNS:foo="u"`, `href="?a=1&amp;b=2"`, `disabled`, `xmlns:svg="http://www.w3.org/2000/svg"`}
+	`data-x`, `x:y="1"`, `XMLNS:foo="u"`, `href="?a=1&amp;b=2"`, `disabled`, `xmlns:svg="http://www.w3.org/2000/svg"`,
+	`v-on:click:once="f"`, `a:b:c`, `:x="1"`, `xlink:title:x="t"`}
 var soupText = []string{"text", " ", "a &amp; b", "&lt;x&gt;", "é中", "1 < 2", "\n  ", "]]>", "&nbsp;", "x"}
 
 func soup(rng *rand.Rand) string {
